@@ -16,10 +16,32 @@ def weekday(t):
     return (t // DAY + 4) % 7          # 0 = Sunday
 
 
-def interp(prog):
+def interp(prog, text=False):
     hooks = dict(minterp.VECTOR_HOOKS)
-    hooks.update({'c_str': lambda it, f, st, a: it.cur_obj})
-    return minterp.Interp(prog, {'str:empty': [0]}, hooks=hooks, inline=('*',))
+    if not text:
+        hooks.update({'c_str': lambda it, f, st, a: it.cur_obj})
+        return minterp.Interp(prog, {'str:empty': [0]}, hooks=hooks, inline=('*',))
+    # the mask as a std::string with its member functions, and std::bitset<N>(text) / to_ulong() / test() as the library defines them (the leftmost character is the highest bit)
+    hooks.update({'to_ulong': lambda it, f, st, a: it.cur_obj.get('v') if isinstance(it.cur_obj, dict) else it.record_of(it.cur_obj)['v'],
+                  'to_ullong': lambda it, f, st, a: it.cur_obj.get('v') if isinstance(it.cur_obj, dict) else it.record_of(it.cur_obj)['v'],
+                  'test': lambda it, f, st, a: ((it.cur_obj.get('v') if isinstance(it.cur_obj, dict) else it.record_of(it.cur_obj)['v']) >> a[0]) & 1})
+    it = minterp.Interp(prog, {'str:empty': [0]}, hooks=hooks, inline=('*',))
+    it.string_mode = True
+    it.globals['std::basic_string<char>::npos'] = minterp.NPOS
+
+    def h_bitset(it_, f, st, args):
+        t = it_.to_text(args[0]) if args else ''
+        if t is None and args and isinstance(args[0], int):
+            v = args[0]
+        elif t is None or any(c not in '01' for c in t):
+            raise AnalysisBroken('std::bitset built from something the replay does not hold as text of 0/1 (%s)' % f.loc(st['i']))
+        else:
+            v = int(t, 2) if t else 0
+        r = {'__cls__': None, '__open__': True, 'v': v}
+        it_._keep.append(r)
+        return r
+    it.ctor_hooks['std::bitset'] = h_bitset
+    return it
 
 
 def call(it, cls, rec, name, args):
@@ -70,7 +92,15 @@ def r14(ctx, prog):
             rec['state_'] = 0
             it.mem['mask'] = [ord(c) for c in mask] + [0]
             it.mem['str:mask'] = it.mem['mask']
-            okinit = call(it, W, rec, 'initialize', [sod, P('str:mask', 0)])
+            try:
+                okinit = call(it, W, rec, 'initialize', [sod, P('str:mask', 0)])
+            except AnalysisBroken:
+                # initialize() uses the mask through more of std::string than at()/size(): interpret it on text
+                it = interp(prog, text=True)
+                rec = it.new_record(W)
+                it._keep.append(rec)
+                rec['state_'] = 0
+                okinit = call(it, W, rec, 'initialize', [sod, minterp.S(mask)])
             if not okinit:
                 bad.setdefault('weekly', 'initialize(%d, "%s") is refused' % (sod, mask))
                 continue
